@@ -43,6 +43,11 @@ PATTERNS = {
 _SETS = {}
 
 
+def decoy():
+    from mc.lib import decoy as decoy_mod
+    decoy_mod.functions()
+
+
 def BOUND(tier):
     return ('%s knot subsets x 5 value patterns x all ordered pairs and '
             'triples of 2K+3 limit positions'
